@@ -27,7 +27,9 @@
 (* rank measure) and the implementation's own compare scores both sides.   *)
 (*                                                                         *)
 (* The leave-one-out protocol (boot_noise_ceiling; cv_noise_ceiling on any *)
-(* fold structure with ceiling sets) is the action sequence                *)
+(* fold structure with ceiling sets; there the upper prediction of a fold  *)
+(* is pooled from ALL data RDMs AT THE TEST CONDITIONS of that fold, the   *)
+(* lower one from the training RDMs at the test conditions) is             *)
 (*   PoolAll ; ( LeaveOut(g) ; PoolTrain ; Score )* ; Finish               *)
 (* followed by ONE adversary move (Adversary: a candidate; Transform: a    *)
 (* positive rescaling / affine map of every data RDM).                     *)
@@ -118,9 +120,13 @@ ByP == IF fc.byP = "" THEN "index" ELSE fc.byP
 PoolOb(ob) == [ob EXCEPT !.rows = <<0>>, !.have = <<Universe>>, !.ridx = <<0>>, !.vec = <<ob.vec[1]>>]
 \* cross-validation: the pooled RDM is cut to the test conditions with the handed-out index list
 AtTest(p, F) == IF api = "boot" THEN p ELSE SubsamplePats(p, ByP, F.testIdx)
+\* the upper prediction: boot - everything, once; cv - per fold, all data RDMs restricted to the test conditions
+\* (with the multiplicity of the handed-out index list) BEFORE they are pooled
+UpperSrc(F) == IF api = "boot" THEN src ELSE SubsamplePats(src, ByP, F.testIdx)
+UpperOf(F) == [ob |-> PoolOb(UpperSrc(F)), deps |-> DepTokens(UpperSrc(F))]
 
 PoolAll == /\ pc = "start"
-           /\ upper' = [ob |-> PoolOb(src), deps |-> DepTokens(src)]
+           /\ upper' = IF api = "boot" THEN [ob |-> PoolOb(src), deps |-> DepTokens(src)] ELSE NoPred
            /\ pc' = "loop"
            /\ UNCHANGED <<objs, hist, fc, folds, stage, src, splits, api, meth, val, g, pred, res, cand, xf>>
 LeaveOut(gg) == /\ pc = "loop" /\ gg = g + 1 /\ gg <= Len(folds)
@@ -129,11 +135,12 @@ LeaveOut(gg) == /\ pc = "loop" /\ gg = g + 1 /\ gg <= Len(folds)
 \* the prediction for group g: the remaining groups only (cv: the training RDMs at the test conditions)
 PoolTrain == /\ pc = "left"
              /\ pred' = [ob |-> AtTest(PoolOb(folds[g].ceil), folds[g]), deps |-> DepTokens(folds[g].ceil)]
+             /\ upper' = IF api = "boot" THEN upper ELSE UpperOf(folds[g])
              /\ pc' = "pooled"
-             /\ UNCHANGED <<objs, hist, fc, folds, stage, src, splits, api, meth, val, g, upper, res, cand, xf>>
+             /\ UNCHANGED <<objs, hist, fc, folds, stage, src, splits, api, meth, val, g, res, cand, xf>>
 Score == /\ pc = "pooled"
          /\ res' = Append(res, [g |-> g, predDeps |-> pred.deps, predPats |-> pred.ob.pats,
-                                upPats |-> AtTest(upper.ob, folds[g]).pats, upDeps |-> upper.deps,
+                                upPats |-> upper.ob.pats, upDeps |-> upper.deps,
                                 testRows |-> folds[g].test.rows, testPats |-> folds[g].test.pats])
          /\ pc' = "loop"
          /\ UNCHANGED <<objs, hist, fc, folds, stage, src, splits, api, meth, val, g, pred, upper, cand, xf>>
@@ -145,12 +152,14 @@ Singleton == \A f \in DOMAIN folds : Len(folds[f].test.rows) = 1
 MaskOf(x) == {k \in 1..Len(x) : x[k] = NaN}
 Dense(c) == LET x == Compact(c) IN Range(x) = 1..Cardinality(Range(x))
 \* cosine / corr: the integer grid; rho-a: EVERY weak ordering of the present entries (the rank
-\* vectors), which is the complete competitor space of a rank measure
+\* vectors), which is the complete competitor space of a rank measure.  Cross-validation: a candidate is a
+\* full RDM that is cut to the test conditions fold by fold; the grid 0..CandMax induces every weak ordering
+\* of CandMax + 1 or fewer test entries
 CandGrid == LET mask == MaskOf(val[1])  n == L - Cardinality(mask) IN
-  IF meth = "rho-a"
+  IF meth = "rho-a" /\ api = "boot"
   THEN {c \in [1..L -> {NaN} \cup (1..n)] : MaskOf(c) = mask /\ Dense(c)}
   ELSE {c \in [1..L -> {NaN} \cup (0..CandMax)] : MaskOf(c) = mask}
-Adversary == /\ pc = "done" /\ Mode = "value" /\ api = "boot" /\ Singleton /\ meth \in {"cosine", "corr", "rho-a"}
+Adversary == /\ pc = "done" /\ Mode = "value" /\ Singleton /\ meth \in {"cosine", "corr", "rho-a"}
              /\ cand' \in CandGrid /\ pc' = "adv"
              /\ UNCHANGED <<objs, hist, fc, folds, stage, src, splits, api, meth, val, g, pred, upper, res, xf>>
 \* clause e: positive rescaling (cosine type) / positive affine maps (correlation type), one per data RDM
@@ -225,13 +234,18 @@ NcDepsExact == pc = "pooled" =>
    pred.deps = TokSet(Range(folds[g].train.rows), Range(folds[g].test.pats))
 \* the prediction is aligned with the test data it is compared with, entry by entry
 NcAligned == pc = "pooled" =>
-   LET F == folds[g]  up == AtTest(upper.ob, F) IN
+   LET F == folds[g]  up == upper.ob IN
    /\ pred.ob.pats = F.test.pats /\ up.pats = F.test.pats
    /\ \A r \in 1..Len(F.test.rows) : \A k \in 1..CLen(Len(F.test.pats)) :
          /\ TokPair(pred.ob.vec[1][k]) = TokPair(F.test.vec[r][k])
          /\ TokPair(up.vec[1][k]) = TokPair(F.test.vec[r][k])
-\* the upper bound pools everything (in cross-validation: before it is cut to the test conditions)
-NcUpperAll == (pc = "loop" /\ g = 0) => upper.deps = DepTokens(src) /\ upper.deps = TokSet(Range(src.rows), Range(src.pats))
+\* the upper bound pools everything: boot - all entries; cv - all data RDMs at the test conditions of the fold
+NcUpperAll ==
+  /\ (api = "boot" /\ pc = "loop" /\ g = 0) =>
+        upper.deps = DepTokens(src) /\ upper.deps = TokSet(Range(src.rows), Range(src.pats))
+  /\ (api = "cv" /\ pc = "pooled") =>
+        /\ upper.deps = TokSet(Range(src.rows), Range(folds[g].test.pats))
+        /\ pred.deps \subseteq upper.deps
 \* every fold is scored exactly once, against its own prediction, in order
 NcScoredOnce == pc = "done" =>
    /\ Len(res) = Len(folds)
@@ -253,7 +267,7 @@ NcCommonMask == (Mode = "value" /\ pc = "start") => \A r \in 1..NR : MaskOf(val[
 RankSum == pc = "start" /\ Mode = "value" =>
    \A r \in 1..NR : LET x == Compact(val[r]) IN SumS(Rank2(x)) = Len(x) * (Len(x) + 1)
 \* a: for rho-a NO weak ordering scores above the pooled RDM (decided exactly)
-RhoAOptimal == (pc = "adv" /\ meth = "rho-a") =>
+RhoAOptimal == (pc = "adv" /\ meth = "rho-a" /\ api = "boot") =>
    RhoSum(Compact(cand), val) <= RhoSum(RankPool2(val), val)
 \* e: a normalised row does not see a positive rescaling (cosine) / positive affine map (corr)
 SameTerm(s, t) == /\ Len(s.num) = Len(t.num)
@@ -270,13 +284,16 @@ FoldStat(f) == LET F == folds[f]  rows == ObVals(F.ceil)  trows == ObVals(F.test
     \* rho-a exactly: lower_f = 3 * rho / (nt * (n^3 - n))
     rho |-> IF meth = "rho-a" THEN RhoSum(RankPool2(rows), trows) ELSE 0,
     rhoUp |-> IF meth = "rho-a" /\ api = "boot" THEN RhoSum(RankPool2(val), trows) ELSE 0,
+    ustat |-> IF api = "cv" THEN PoolStat(meth, ObVals(UpperSrc(F)))
+              ELSE [R |-> 0, present |-> <<>>, terms |-> <<>>],
     nt |-> Len(trows), tt |-> F.test.vec[1]]
 EmitNC ==
   /\ (pc = "done" /\ Mode = "value") =>
         PrintT(ToJson([t |-> "stack", api |-> api, case |-> fc, by |-> fc.byR, meth |-> meth, val |-> val,
                        all |-> PoolStat(meth, val),
                        loo |-> [f \in DOMAIN folds |-> FoldStat(f)]]))
-  /\ pc = "adv" => PrintT(ToJson([t |-> "cand", by |-> fc.byR, meth |-> meth, val |-> val, c |-> cand]))
+  /\ pc = "adv" => PrintT(ToJson([t |-> "cand", api |-> api, case |-> IF api = "cv" THEN fc ELSE <<>>, by |-> fc.byR,
+                                  meth |-> meth, val |-> val, c |-> cand]))
   /\ pc = "xf" => PrintT(ToJson([t |-> "xf", by |-> fc.byR, meth |-> meth, val |-> val, xf |-> xf]))
   /\ (pc = "done" /\ Mode = "proto") =>
         PrintT(ToJson([t |-> "proto", api |-> api, case |-> fc,
@@ -284,6 +301,6 @@ EmitNC ==
                           LET F == folds[f] IN
                           [ceil |-> Strip(F.ceil), test |-> Strip(F.test), testIdx |-> F.testIdx,
                            predDeps |-> SetSeq(res[f].predDeps), predPats |-> res[f].predPats,
-                           upPats |-> res[f].upPats]],
-                       upDeps |-> SetSeq(upper.deps), splitsR |-> splits]))
+                           upPats |-> res[f].upPats, upDeps |-> SetSeq(res[f].upDeps)]],
+                       splitsR |-> splits]))
 =============================================================================
